@@ -1864,6 +1864,7 @@ func (c *DnsController) evictIdleDnsForwarders(now time.Time) {
 	nowNano := now.UnixNano()
 	idleNano := c.dnsForwarderIdleTTL.Nanoseconds()
 	var toClose []DnsForwarder
+	var toRetire []*cachedDnsForwarder
 
 	c.dnsForwarderCache.Range(func(key, value any) bool {
 		k, ok := key.(dnsForwarderKey)
@@ -1894,10 +1895,19 @@ func (c *DnsController) evictIdleDnsForwarders(now time.Time) {
 
 		verifYield("dnsfwd.evict.idle", entry)
 		if c.dnsForwarderCache.CompareAndDelete(k, entry) {
-			toClose = append(toClose, entry.forwarder)
+			toRetire = append(toRetire, entry)
 		}
 		return true
 	})
+
+	// A query may have picked the entry up between the idle test above and its
+	// removal from the cache: retire it, so that it is closed once, by whoever
+	// uses it last, instead of closing the forwarder under that query.
+	for _, entry := range toRetire {
+		if err := entry.retire(); err != nil && c.log != nil {
+			c.log.WithError(err).Debugln("failed to close idle dns forwarder")
+		}
+	}
 
 	for _, forwarder := range toClose {
 		if forwarder == nil {
